@@ -578,6 +578,22 @@ func runC19(rc *RunCtx) {
 		}
 	}
 
+	if rc.Chance(0.2) {
+		// a populous tree: more than a hundred entries below one root (every one of them has to come through)
+		u := rc.Intn(nUser)
+		crowd := 101 + rc.Intn(30)
+		qTree = append(qTree, func() {
+			trk := fmt.Sprintf("trk-crowd-%x", randBytes(rc.Rng, 4))
+			w.tx(u, "filetree.ProvisionFileTree", &filetreetypes.MsgProvisionFileTree{Creator: w.bech(u), Editors: access("e", trk, w.bech(u)), Viewers: access("v", trk, w.bech(u)), TrackingNumber: trk})
+			for k := 0; k < crowd; k++ {
+				ct := fmt.Sprintf("%s-%d", trk, k)
+				w.tx(u, "filetree.PostFile", &filetreetypes.MsgPostFile{Creator: w.bech(u), Account: c19Hex(w.bech(u)), HashParent: rootPath, HashChild: c19Hex(fmt.Sprintf("crowd-%d", k)),
+					Contents: `{"n":` + fmt.Sprint(k) + `}`, Viewers: access("v", ct, w.bech(u)), Editors: access("e", ct, w.bech(u)), TrackingNumber: ct})
+			}
+			rc.Count("trees_with_over_100_entries", 1)
+		})
+	}
+
 	// ---- oracle
 	feedNames := []string{"jklprice", "btc", "weather/berlin", "feed with space", "ÿ"}
 	for _, fi := range rc.Rng.Perm(len(feedNames))[:1+rc.Intn(3)] {
